@@ -9,31 +9,31 @@ sys.path.insert(0, HERE)
 
 TECH = {'C01': 'runtime contract monitors (icontract / re-entrant wrapper) on every call of permute_systems, swap, permutation_operator against a NumPy tensor-axis reference model; unique-id arrays; product-form, inverse, row-only metamorphic oracles; repository suite under contract (thorough)', 'C02': 'runtime contract monitor on every partial_trace call (einsum reference model), composition / product / linearity oracles, cvxpy-Variable value path, repository suite under contract (thorough)', 'C03': 'runtime contract monitors on partial_transpose and realignment (axis-exchange reference model, arguments snapshotted before the call), involution / complement / Frobenius oracles, cvxpy value path, suite under contract (thorough)', 'C04': 'reference-model monitors (explicit Kraus loop, Choi from action) over all representation forms and conversion chains; contracts on internal apply_channel / kraus_to_choi calls; mixed-dtype operator families', 'C05': "adjoint-identity and Stinespring-marginal monitors evaluated through the reference application (never the library's apply_channel); rejection monitors", 'C06': 'ground-truth-by-construction predicate monitors with margins across all accepted forms; closed-formula monitors for built-in channels incl. parameter-range rejections; contracts on internal calls', 'C07': 'brute-force reference for the classical value, one-sided ordering monitors on SDP values incl. explicit quantum strategies, relabelling/padding disguises with value invariance, history monitor over call orders with state digests', 'C08': "certificate monitor (unit vectors + repaired dual point, NumPy-verified) for the Tsirelson optimum, NPA level-1 equality, exact 2-2-2 quantum maximum by Jordan's lemma, affine outcome-relabelling relation", 'C09': 'brute-force unentangled value, ordering monitors, answer-relabelling disguises with invariance, strong-duality and explicit-feasible-point monitors for hedging, closed forms and repetition consistency for cloning', 'C10': 'primal/dual certificate monitor: returned POVM validity and attained value, dual-feasible operator repaired by measured infeasibility (NumPy only); closed forms, invariances, unambiguous-discrimination relations', 'C11': 'certificate monitor for minimum-error exclusion (attained value, repaired dual-feasible lower bound), closed forms, antidistinguishability anchors (trine, BB84, PBR) and certified-positive negatives', 'C12': "ordering monitors between explicit product measurements, the PPT value and the certified global optimum; cross-solver level-1 equality; before/after digests (element identities) of the caller's list", 'C13': 'documented formulas recomputed by Hermitian eigendecompositions, relation monitors on library values, rejection monitors, SDP value monitor for the fidelity of separability', 'C14': 'planted-Schmidt-coefficient closed forms, local-unitary invariance monitors, product-test ground truth with margins, S(k)-norm bracket against explicit Schmidt-rank-k vectors', 'C15': 'ground-truth-by-construction verdict monitors with margins; sys.monitoring attribution of every is_separable verdict to its return statement; crash classification by raising line', 'C16': 'predicate table: exact positives, margin negatives, property-preserving transformations; helper identities against NumPy', 'C17': 'defining-identity monitors for every constructor over parameter grids incl. end points; reference partial traces / transposes / permutations; Haar-unitary invariance sampling', 'C18': 'exhaustive enumeration of the finite (d, p), permutation, multiset and matching spaces against model permutation operators and itertools', 'C19': 'kind monitors (model checks), offline-checked history of interleaved seeded / unseeded calls with global-RNG digests, POVM / Born-rule monitors, P_opt bracket from the C10 certificate', 'C20': 'closed forms (unitary pairs, replacement channels), explicit-input lower bounds, independent SDP of the definition, return-site attribution of the cb trace norm'}
 
-GENERIC = ("; on every library call: plain-argument digests before/after, read-only array arguments in one case out of four, and an offline-checked "
+GENERIC = ("; on every library call: plain-argument digests before/after, read-only array arguments in one case out of four, Fortran-ordered / strided copies of the same values in another one out of four, and an offline-checked "
            "call history (sampled cases re-run in reverse order by fresh processes must reproduce every recorded value)")
 
 
 EXTRA = {
-    "C01": "repeat calls with the same ndarray index objects; 9-13 subsystems; square operators between two factorisations; sparse flags",
+    "C01": "tiny-entry operands, repeat calls with the same ndarray index objects; 9-13 subsystems; square operators between two factorisations; sparse flags",
     "C02": "narrow integer types, operands of magnitude 1e-16..1e8 against their natural magnitude, 9-13 subsystems, one cvxpy Variable under several factorisations",
     "C03": "single-number dim forms, rectangular cvxpy Variables, repeat calls, 9-13 subsystems",
-    "C04": "designed Choi spectra around the documented cut-off, operator magnitudes, repeated operators, kraus_to_choi(sys=1), non-square Choi matrices with dims omitted",
+    "C04": "nearly equal left / right Kraus pairs, designed Choi spectra around the documented cut-off, operator magnitudes, repeated operators, kraus_to_choi(sys=1), non-square Choi matrices with dims omitted",
     "C05": "nested CP list forms, near-Hermitian operators, classical channels, repeated operators, magnitudes 1e-12..1e6",
-    "C06": "documented tolerance rule of is_trace_preserving / is_unital, direct-form parameter rejections, non-Hermitian operands, fresh-result history monitor",
-    "C07": "predicate-scaling relation, every order of the NPA levels on one object (tilted CHSH), fractional / mixed predicates",
+    "C06": "mixed int / float / NumPy-float constructor parameters, documented tolerance rule of is_trace_preserving / is_unital, direct-form parameter rejections, non-Hermitian operands, fresh-result history monitor",
+    "C07": "planted unique optima for the pooled classical value, predicate-scaling relation, every order of the NPA levels on one object (tilted CHSH), fractional / mixed predicates",
     "C08": "classical value of two repetitions against the explicit product game, repeated predicate columns, different outcome labels per party, tol argument",
-    "C09": "explicit keep-and-prepare cloning strategy, zero-prior insertion and listing-order invariance",
+    "C09": "CGLMP-3 known value at an intermediate NPA level in every spelling of the level string, explicit keep-and-prepare cloning strategy, zero-prior insertion and listing-order invariance",
     "C10": "row / mixed vector forms, repeated states, exact-zero priors, prior omitted, overlapping pairs at arbitrary list positions",
     "C11": "density-matrix forms, mixed-pair overlap closed form, library PBR constructor against its definition, prior omitted",
-    "C12": "orthogonal product states in rotated local bases as a known-value anchor at every level, dimension argument forms",
-    "C13": "graded nearly-equal pairs with a condition-aware Bures tolerance, degenerate commuting pairs, one array object as both arguments, mixed dtypes",
-    "C14": "product-test classifier that replays the library's splits (known finding keyed by mechanism)",
-    "C15": "weakly entangled states, rank-four two-qutrit mixtures, ppt flag, omitted / single-number dimension forms; known findings keyed by call class",
-    "C16": "documented allclose tolerance rule at scales 1e-4..1e4, non-adjacent violating pairs, designed spectra for the norms, unequal-length majorisation",
+    "C12": "repeated states with the heavier copy later against the ensemble without the lighter copy, orthogonal product states in rotated local bases as a known-value anchor at every level, dimension argument forms",
+    "C13": "nearly pure mixed states, graded nearly-equal pairs with a condition-aware Bures tolerance, degenerate commuting pairs, one array object as both arguments, mixed dtypes",
+    "C14": "certified S(k) relaxation bound, product-test classifier that replays the library's splits (known finding keyed by mechanism)",
+    "C15": "nearly product NPT states 20..5000 tolerances beyond the threshold, weakly entangled states, rank-four two-qutrit mixtures, ppt flag, omitted / single-number dimension forms; known findings keyed by call class",
+    "C16": "helper contracts on internal calls, explicit-zero signatures, near-parallel columns for spark, documented allclose tolerance rule at scales 1e-4..1e4, non-adjacent violating pairs, designed spectra for the norms, unequal-length majorisation",
     "C17": "fresh-result history monitor on every constructor",
     "C18": "abandoned / interleaved enumerations, non-integer, negative and shuffled labels",
     "C19": "seed 0 and small seeds, mixed-dtype measured states, row-vector kets, conditioning-aware POVM tolerance",
-    "C20": "measure-and-prepare pairs, transpose and affine unital maps, maps that do not preserve Hermiticity, complex homogeneity, unequal dimensions for the channel fidelity of separability",
+    "C20": "complex / negative multiples of channels and CP maps, trace-preserving maps that do not preserve Hermiticity, measure-and-prepare pairs, transpose and affine unital maps, maps that do not preserve Hermiticity, complex homogeneity, unequal dimensions for the channel fidelity of separability",
 }
 
 CHECKS = {
